@@ -92,10 +92,14 @@ class LiveManager:
                     s.shutdown(socket.SHUT_WR)
             except OSError:
                 pass        # a manager that is gone resets the connection: an observation (no reply), not a failure
+            timed_out = False
             while True:
                 try:
                     b = s.recv(65536)
-                except (socket.timeout, ConnectionError):
+                except socket.timeout:
+                    timed_out = True
+                    break
+                except ConnectionError:
                     break
                 if not b:
                     break
@@ -104,6 +108,10 @@ class LiveManager:
             s.close()
         ev = {"connected": True, "nlines": 0, "isobj": False, "hascode": False,
               "shutdown": self.shutdown_calls > before}
+        if timed_out and not data:
+            # nothing came back in time: the (single-threaded) manager is still busy with this request and will serve
+            # nobody else meanwhile - the caller abandons this manager (stop() would wait for it for ever)
+            self.stuck = True
         if data:
             parts = data.split(b"\n")
             complete, rest = parts[:-1], parts[-1]
@@ -118,10 +126,14 @@ class LiveManager:
                     pass
         return ev, data
 
+    stuck = False
+
     def alive(self):
-        return self.thread.is_alive() and self.shutdown_calls == 0
+        return self.thread.is_alive() and self.shutdown_calls == 0 and not self.stuck
 
     def stop(self):
+        if self.stuck:
+            return
         try:
             if self.srv.server is not None:
                 self.srv.server.shutdown()
